@@ -418,7 +418,9 @@ def monC13 (h : Hist) : Option String :=
         else if !(statusValues x.res.hdr == [str% "STALE"]) then some s!"exchange {ri.n}: stale-if-error response not marked STALE"
         else none
       else
-        if !strict && simpleReq && ns.any (fun n => Spec.withinWindow Spec.rfc parse s now n) && !Spec.isFresh Spec.rfc parse s now then
+        if !strict && simpleReq && ns.any (fun n => Spec.withinWindow Spec.rfc parse s now n) && !Spec.isFresh Spec.rfc parse s now &&
+           !Spec.conflictingDuplicate s.header (str% "max-age") && !Spec.conflictingDuplicate s.header (str% "stale-if-error") &&
+           !Spec.conflictingDuplicate ri.req.header (str% "stale-if-error") then
           some s!"exchange {ri.n}: validation failed inside the stale-if-error window (staleness {st} ns, windows {ns}) but the stored response was not returned"
         else none
     else none
